@@ -313,7 +313,11 @@ var execDB = func() *pgsim.DB {
 	for i, k := range schemaKinds {
 		ids[k] = int16(i + 1)
 	}
-	return pgsim.NewDB(execGraph, ids, 0)
+	db := pgsim.NewDB(execGraph, ids, 0)
+	// the exec stage only wants every expression reached once; deep generated statements cross-join many
+	// patterns, and eight shards evaluating 40 million steps each exhaust the machine's memory
+	db.MaxSteps = 1_000_000
+	return db
 }()
 
 // mapper: the schema's kinds have the ids the exec database knows; any other kind a query names is
